@@ -67,6 +67,24 @@ def lean_files():
     return sorted(out)
 
 
+def closure_files(mods):
+    """project files imported (transitively) by the given modules"""
+    seen, todo = set(), list(mods) + ["Driver"]
+    while todo:
+        m = todo.pop()
+        if m in seen:
+            continue
+        p = module_file(m)
+        if not os.path.exists(p):
+            continue
+        seen.add(m)
+        for line in open(p):
+            mm = re.match(r"\s*import\s+(\S+)", line)
+            if mm and mm.group(1).split(".")[0] in ("TopsimModel", "TopsimGen", "TopsimProofs", "TopsimProps"):
+                todo.append(mm.group(1))
+    return sorted(module_file(m) for m in seen)
+
+
 def module_file(mod):
     return os.path.join(LEAN, *mod.split(".")) + ".lean"
 
@@ -87,7 +105,9 @@ def theorems_of(mod):
         if m and ns and ns[-1] == m.group(1):
             ns.pop()
             continue
-        m = re.match(r"\s*(?:private\s+|protected\s+)?theorem\s+([\w.']+)", line)
+        if re.match(r"\s*(@\[[^\]]*\]\s*)?private\s", line):
+            continue          # private helper lemmas are not obligations
+        m = re.match(r"\s*(?:@\[[^\]]*\]\s*)?(?:protected\s+)?theorem\s+([\w.']+)", line)
         if m:
             names.append(".".join(ns + [m.group(1)]))
     return names
@@ -105,7 +125,8 @@ def lean_stage(pid, tier):
         tr = py2lean.regenerate()
         res["translator"] = tr
         for f in tr.get("failures", []):
-            res["failures"].append({"stage": "translator", "what": f})
+            if pid in f["props"]:
+                res["failures"].append({"stage": "translator", "what": "%s: %s" % (f["name"], f["what"])})
     except ImportError:
         res["translator"] = {"skipped": "translator not present"}
     except Exception as e:   # noqa
@@ -127,8 +148,8 @@ def lean_stage(pid, tier):
         res["ok"] = False
         res["wall_s"] = time.time() - t0
         return res
-    # forbidden tokens (comments stripped)
-    for f in lean_files():
+    # forbidden tokens (comments stripped) in everything the property's modules import
+    for f in closure_files(mods):
         src = strip_comments(open(f).read())
         for i, line in enumerate(src.split("\n")):
             if FORBIDDEN.search(line):
